@@ -244,9 +244,7 @@ pub fn outcome_hash(g: &World, out: &Outcome) -> u64 {
     let mut h = vcommon::explore::StableHash::default();
     for s in &g.sinks {
         h.u64(s.accepted.len() as u64);
-        for (_, f) in &s.accepted {
-            h.u64(frame_hash(f));
-        }
+        h.u64(s.acc_hash);
         h.u64(s.flushed as u64);
         h.u64((s.closed as u64) | (s.failed.is_some() as u64) << 1 | (s.first_touch.is_some() as u64) << 2);
     }
